@@ -19,6 +19,7 @@ import os
 import random
 import re
 import shutil
+import signal
 import tempfile
 import time
 
@@ -29,6 +30,7 @@ from vsim.runner import Engine, Result
 from vsim.steps import exc_outcome
 
 CODECS = ['ber', 'der', 'per', 'uper', 'oer', 'jer', 'xer', 'gser']
+CHILD_WALL_S = 25      # then the call is made again with a longer limit
 ERRNOS = {'ENOSPC': 28, 'EIO': 5, 'EDQUOT': 122}
 
 OPTION_TYPES = [
@@ -67,6 +69,10 @@ def extra_probes(numeric_enums):
                           else 'aa9003'}),
             ('OptS9009', {'n9011': 1}),
             ('Zb9012', 9)]
+
+
+class InprocTimeout(BaseException):
+    pass
 
 
 class Stub(object):
@@ -754,6 +760,14 @@ class C17(Engine):
 
                 merge_into(result, sub)
                 result.stats['sweep-{}-points'.format(item['mode'])] += 1
+
+                if any(v['class'] in ('error-without-fault',
+                                      'error-after-kill-only')
+                       and (v['detail'].get('got') or {}).get('outcome')
+                       == 'hang' for v in result.violations):
+                    # A compile that never returns: every further crash
+                    # point of this sweep would wait for the same limits.
+                    break
         finally:
             shutil.rmtree(holder, ignore_errors=True)
 
@@ -945,36 +959,58 @@ class C17(Engine):
             urandom_seed = mix(seed, 'urandom', op.get('index', index))
             expected, _, probes = reference(op)
 
+            stub_spec = reference_spec(op) if op.get('stub') else None
+            paths = list(state['paths'])
+
+            def in_child():
+                if stub_spec is not None:
+                    with Stub(stub_spec, op['codec'], op):
+                        return behaviour(paths, op['codec'], op, cache,
+                                         seed, probes=probes)
+
+                return behaviour(paths, op['codec'], op, cache, seed,
+                                 probes=probes)
+
+            outcome = None
+
             if fault is None and op.get('proc', 'child') == 'inproc' \
                     and not tainted:
                 # Un-faulted compile in the driver process itself (a
-                # long-lived user process calling compile_files again).
-                with fsfault.seeded_urandom(urandom_seed):
-                    payload = behaviour(state['paths'], op['codec'], op,
-                                        cache, seed, probes=probes)
+                # long-lived user process calling compile_files again),
+                # under an alarm: a call that waits for ever (for a lock a
+                # killed process left behind, say) is abandoned and made
+                # again in a compiler process, where it can be judged.
+                def on_alarm(signum, frame):
+                    raise InprocTimeout()
+
+                previous = signal.signal(signal.SIGALRM, on_alarm)
+                signal.setitimer(signal.ITIMER_REAL, CHILD_WALL_S)
+
+                try:
+                    with fsfault.seeded_urandom(urandom_seed):
+                        payload = behaviour(state['paths'], op['codec'], op,
+                                            cache, seed, probes=probes)
+
+                    outcome = {'status': 'returned', 'payload': payload,
+                               'fired': 0, 'ticks': 0, 'calls': None}
+                    result.stats['compiles-in-process'] += 1
+                except InprocTimeout:
+                    outcome = {'status': 'timeout', 'payload': None,
+                               'calls': None, 'ticks': None, 'fired': 1,
+                               'wall_timeout': CHILD_WALL_S}
+                    result.stats['compiles-in-process-abandoned'] += 1
+                finally:
+                    signal.setitimer(signal.ITIMER_REAL, 0)
+                    signal.signal(signal.SIGALRM, previous)
 
                 # Whatever the call left behind in this process (a sqlite
                 # connection kept alive by a reference cycle would hold the
                 # -wal/-shm files) goes now, not at some later collection.
                 gc.collect()
-                outcome = {'status': 'returned', 'payload': payload,
-                           'fired': 0, 'ticks': 0, 'calls': None}
-                result.stats['compiles-in-process'] += 1
             else:
-                stub_spec = reference_spec(op) if op.get('stub') else None
-                paths = list(state['paths'])
-
-                def in_child():
-                    if stub_spec is not None:
-                        with Stub(stub_spec, op['codec'], op):
-                            return behaviour(paths, op['codec'], op, cache,
-                                             seed, probes=probes)
-
-                    return behaviour(paths, op['codec'], op, cache, seed,
-                                     probes=probes)
-
                 outcome = fsfault.run_child(in_child, cache, fault=fault,
-                                            urandom_seed=urandom_seed)
+                                            urandom_seed=urandom_seed,
+                                            wall_timeout=CHILD_WALL_S)
                 result.stats['compiler-processes'] += 1
 
                 if stub_spec is not None:
@@ -1012,13 +1048,13 @@ class C17(Engine):
                     fault is not None and fault.get('mode') in ('ERR',
                                                                 'SHORT')):
                 # The driver killed a compiler process that did not come
-                # back within 45 s of wall-clock time.  On a loaded machine
+                # back within 25 s of wall-clock time.  On a loaded machine
                 # that can be a slow process, not a hung one: the call is
                 # made again (after what is now one more kill) with a far
                 # longer limit, and only that one is judged.
                 kills += 1
                 result.stats['compiler-process-slow-retried'] += 1
-                history.append([name, None, fault, 'killed-by-driver-45s'])
+                history.append([name, None, fault, 'killed-by-driver-25s'])
                 started = time.time()
                 world.compile_text('A DEFINITIONS ::= BEGIN B ::= INTEGER END',
                                    'ber')
@@ -1027,7 +1063,7 @@ class C17(Engine):
                 slowdown = max(1.0, (time.time() - started) / 0.05)
                 outcome = fsfault.run_child(
                     in_child, cache, fault=fault, urandom_seed=urandom_seed,
-                    wall_timeout=min(900, 60 + 15 * slowdown))
+                    wall_timeout=min(900, 30 + 10 * slowdown))
 
             if outcome['status'] == 'timeout':
                 # Not an error, not a codec: the process had to be killed
@@ -1284,6 +1320,10 @@ class C17(Engine):
 
     def shrink(self, case, violation):
         ops = case['ops']
+
+        if ((violation.get('detail') or {}).get('got') or {}).get(
+                'outcome') == 'hang':
+            return      # every candidate would wait for the wall limits
 
         if len(ops) > 1:
             for reduced in shrink.drop_each(ops[:-1]):
